@@ -114,4 +114,248 @@ theorem plus_spec (wOf fOf : Nat → List Rat) : ∀ (l : List Nat) (cur : St) (
         rw [show i + 1 + j + 1 = i + (j + 1) + 1 from by omega, show i + 1 + j = i + (j + 1) from by omega] at this
         exact this
 
+
+theorem lookup_map_keyed (l : List Nat) (h : Nat → List Rat) (q : Nat) :
+    (l.map (fun pn => (pn, h pn))).lookup q = if q ∈ l then some (h q) else none := by
+  induction l with
+  | nil => simp [List.lookup]
+  | cons x rest ih =>
+    simp only [List.map_cons, List.lookup_cons, List.mem_cons]
+    by_cases hq : q = x
+    · subst hq; simp
+    · have : (q == x) = false := by simpa using hq
+      simp only [this, ih, hq, false_or]
+
+theorem mem_rot (q pn0 : Nat) (rest : List Nat) : q ∈ rest ++ [pn0] ↔ q ∈ pn0 :: rest := by
+  simp [or_comm]
+
+/-- a one-worker state right after `treat_output` ("stop state"), `pns` = its live path numbers in slot order:
+    shapes; every real slot idle, holding a path whose padded weight vector is its W row, of full length, with a
+    non-zero entry on the diagonal (the sorted-diagonal invariant, C05), and with a fraction entry; the ghost slot
+    empty, zero and locked; no table entries for dead paths; nothing in flight or on record; entropy = seed and
+    spawn counter = steps done. -/
+structure StopState (s : St) (pns : List Nat) : Prop where
+  n2 : 2 ≤ s.n
+  lenW : s.W.length = s.n
+  lenT : s.trajs.length = s.n
+  lenL : s.locks.length = s.n
+  pnsLen : pns.length = s.n - 1
+  slot : ∀ (e pn : Nat), pns[e]? = some pn → s.trajs[e]? = some (some pn) ∧ s.locks[e]? = some false ∧
+    ∃ w, s.wts.lookup pn = some w ∧ s.W[e]? = some (padValid s ((e : Int) - 1) w) ∧
+      (padValid s ((e : Int) - 1) w).length = s.n ∧ (padValid s ((e : Int) - 1) w).getD e 0 ≠ 0 ∧
+      ∃ f, s.frac.lookup pn = some f
+  ghostT : s.trajs[s.n - 1]? = some none
+  ghostW : s.W[s.n - 1]? = some (List.replicate s.n 0)
+  ghostL : s.locks[s.n - 1]? = some true
+  fracKeys : ∀ q ∈ s.frac.map (·.1), q ∈ pns
+  wtsKeys : ∀ q ∈ s.wts.map (·.1), q ∈ pns
+  locked : s.locked = []
+  locked0 : s.locked0 = []
+  lockedOrd : s.lockedOrd = []
+  locked0Ord : s.locked0Ord = []
+  entropy : s.entropy = s.seed
+  spawned : s.spawned = s.cstep
+
+theorem StopState.live {s : St} {pns : List Nat} (h : StopState s pns) : livePaths s = pns.map some := by
+  apply List.ext_getElem?
+  intro e
+  unfold livePaths
+  rw [List.getElem?_dropLast, List.getElem?_map]
+  by_cases he : e < s.n - 1
+  · have : e < pns.length := by rw [h.pnsLen]; exact he
+    rw [if_pos (by rw [h.lenT]; exact he)]
+    have hp : pns[e]? = some pns[e] := List.getElem?_eq_getElem this
+    rw [(h.slot e _ hp).1, hp]; rfl
+  · rw [if_neg (by rw [h.lenT]; exact he)]
+    have : pns[e]? = none := List.getElem?_eq_none (by rw [h.pnsLen]; omega)
+    rw [this]; rfl
+
+/-- **`restore (persist s)` is observationally `s`** (full): for a stop state the load goes through and the rebuilt
+    state stands in `RestoreRel` to `s` — same W, slot order, locks, counters, seed, entropy, spawn counter, fractions
+    and weights as finite maps; by design a full initiation is due, the stream position is restored at the first pick,
+    the engine table is fresh, `restarted` is set, and the rows stay in the data file.  `weightOf` = the weight
+    vector stored for the path. -/
+theorem restore_persist_full {s : St} {pns : List Nat} (h : StopState s pns) (occ : List (List Int)) :
+    ∃ s', restore (persist s) s.n s.workers s.tsteps occ s.ensEng (fun pn => (s.wts.lookup pn).getD []) = .ok s' ∧
+      RestoreRel occ s s' := by
+  -- the list of paths handed to load_paths
+  cases hpns : pns with
+  | nil => have := h.pnsLen; have := h.n2; rw [hpns] at *; simp at *; omega
+  | cons pn0 rest =>
+  have hrl : rest.length + 1 = s.n - 1 := by have := h.pnsLen; rw [hpns] at this; simpa using this
+  let wOf : Nat → List Rat := fun pn => (s.wts.lookup pn).getD []
+  let fOf : Nat → List Rat := fun pn => ((persist s).frac.lookup pn).getD (List.replicate s.n 0)
+  have hpaths : (persist s).active.filterMap (fun o => o.map (fun pn => (pn, wOf pn, fOf pn))) =
+      (pn0, wOf pn0, fOf pn0) :: rest.map (fun pn => (pn, wOf pn, fOf pn)) := by
+    show (livePaths s).filterMap _ = _
+    rw [h.live, hpns]
+    simp [List.filterMap_map, Function.comp_def]
+  -- facts about each slot in terms of wOf
+  have hslot : ∀ (e pn : Nat), pns[e]? = some pn → s.trajs[e]? = some (some pn) ∧ s.locks[e]? = some false ∧
+      s.W[e]? = some (padValid s ((e : Int) - 1) (wOf pn)) ∧ (padValid s ((e : Int) - 1) (wOf pn)).length = s.n ∧
+      (padValid s ((e : Int) - 1) (wOf pn)).getD e 0 ≠ 0 := by
+    intro e pn hp
+    obtain ⟨a, b, w, c, d, e1, e2, _⟩ := h.slot e pn hp
+    have : wOf pn = w := by simp only [wOf, c, Option.getD_some]
+    rw [this]
+    exact ⟨a, b, d, e1, e2⟩
+  -- the start state
+  let s0 : St := { blank s.n s.workers s.tsteps (persist s).cstep (persist s).trajNum (persist s).seed occ s.ensEng true
+                     (persist s).locked with locked0Ord := (persist s).lockedOrd.map some }
+  have hs0n : s0.n = s.n := rfl
+  obtain ⟨s1, p1, p2, p3, p4, p5, p6, p7, p8, p9⟩ := plus_spec wOf fOf rest s0 0
+    (by simp [s0, blank]) (by simp [s0, blank]) (by simp [s0, blank])
+    (by show 0 + rest.length < s.n; omega)
+    (by intro e _ he; simp only [s0, blank]; rw [List.getElem?_replicate]; simp; omega)
+    (by
+      intro j pn hj
+      have hp : pns[j + 1]? = some pn := by rw [hpns]; simpa using hj
+      obtain ⟨_, _, _, e1, e2⟩ := hslot (j + 1) pn hp
+      rw [padValid_congr hs0n]
+      have hc : (((0 + j : Nat) : Int)) = ((j + 1 : Nat) : Int) - 1 := by omega
+      rw [hc, show 0 + j + 1 = j + 1 from by omega]
+      exact ⟨e1, e2⟩)
+  have hn1 : s1.n = s.n := by
+    have := p2; unfold SameScalars at this
+    have h' := congrArg St.n this
+    exact h'
+  obtain ⟨t0, l0, w0, e01, e02⟩ := hslot 0 pn0 (by rw [hpns]; rfl)
+  have hz : ((-1 : Int) + 1).toNat = 0 := by decide
+  obtain ⟨z1, z2, z3⟩ := p8 0 (Or.inl (Nat.le_refl _))
+  have hlast := loadOne_eq (s := s1) (ens := -1) (pn := pn0) (valid := wOf pn0) (fr := fOf pn0)
+    (by rw [hz, z3]; simp only [s0, blank]; rw [List.getElem?_replicate]; simp; omega)
+    (by rw [padValid_congr hn1, hn1]; simpa using e01)
+    (by rw [padValid_congr hn1, hz]; simpa using e02)
+    (by rw [hz, p5]; show 0 < s.n; omega)
+  rw [hz] at hlast
+  have hload : restore (persist s) s.n s.workers s.tsteps occ s.ensEng wOf = .ok
+      { s1 with trajs := s1.trajs.set 0 (some pn0), W := s1.W.set 0 (padValid s1 (-1) (wOf pn0)),
+                locks := s1.locks.set 0 false, frac := s1.frac ++ [(pn0, fOf pn0)],
+                wts := s1.wts ++ [(pn0, wOf pn0)] } := by
+    unfold restore
+    simp only []
+    rw [hpaths]
+    simp only [loadPaths]
+    show (match loadPaths.plus s0 0 (rest.map (fun pn => (pn, wOf pn, fOf pn))) with
+          | Except.error er => Except.error er
+          | Except.ok s1 => loadOne s1 (-1) pn0 (wOf pn0) (fOf pn0)) = _
+    rw [p1]
+    exact hlast
+  refine ⟨_, hload, ?_⟩
+  apply restore_persist_rel occ wOf hload ?_ h.locked h.locked0 h.lockedOrd h.locked0Ord h.entropy h.spawned
+  simp only []
+  -- slot tables
+  have hidx : ∀ e, e < s.n → (e = 0 ∨ (∃ j, e = j + 1 ∧ j < rest.length) ∨ e = s.n - 1) := by
+    intro e he
+    rcases Nat.eq_zero_or_pos e with h0 | h0
+    · exact Or.inl h0
+    · by_cases hl : e = s.n - 1
+      · exact Or.inr (Or.inr hl)
+      · exact Or.inr (Or.inl ⟨e - 1, by omega, by omega⟩)
+  refine ⟨?_, ?_, ?_, ?_, ?_⟩
+  · -- W
+    apply List.ext_getElem?
+    intro e
+    by_cases he : e < s.n
+    · rcases hidx e he with h0 | ⟨j, hj, hjl⟩ | hl
+      · subst h0
+        rw [List.getElem?_set_self (by rw [p7]; show 0 < s.n; omega), w0, padValid_congr hn1]
+        simp
+      · subst hj
+        rw [List.getElem?_set_ne (by omega)]
+        have hq : rest[j]? = some rest[j] := List.getElem?_eq_getElem hjl
+        obtain ⟨a, _, _⟩ := p9 j _ hq
+        have hp : pns[j + 1]? = some rest[j] := by rw [hpns]; simp [hq]
+        obtain ⟨_, _, c, _, _⟩ := hslot (j + 1) _ hp
+        rw [show 0 + j + 1 = j + 1 from by omega] at a
+        rw [a, c, padValid_congr hs0n]
+        congr 2
+        omega
+      · subst hl
+        rw [List.getElem?_set_ne (by omega)]
+        obtain ⟨a, _, _⟩ := p8 (s.n - 1) (Or.inr (by show 0 + rest.length < s.n - 1; omega))
+        rw [a, h.ghostW]
+        simp only [s0, blank]
+        rw [List.getElem?_replicate]; simp; omega
+    · rw [List.getElem?_eq_none (by simp only [List.length_set]; rw [p7]; show s.n ≤ e; omega),
+          List.getElem?_eq_none (by rw [h.lenW]; omega)]
+  · -- trajs
+    apply List.ext_getElem?
+    intro e
+    by_cases he : e < s.n
+    · rcases hidx e he with h0 | ⟨j, hj, hjl⟩ | hl
+      · subst h0
+        rw [List.getElem?_set_self (by rw [p5]; show 0 < s.n; omega), t0]
+      · subst hj
+        rw [List.getElem?_set_ne (by omega)]
+        have hq : rest[j]? = some rest[j] := List.getElem?_eq_getElem hjl
+        obtain ⟨_, a, _⟩ := p9 j _ hq
+        have hp : pns[j + 1]? = some rest[j] := by rw [hpns]; simp [hq]
+        obtain ⟨c, _, _, _, _⟩ := hslot (j + 1) _ hp
+        rw [show 0 + j + 1 = j + 1 from by omega] at a
+        rw [a, c]
+      · subst hl
+        rw [List.getElem?_set_ne (by omega)]
+        obtain ⟨_, a, _⟩ := p8 (s.n - 1) (Or.inr (by show 0 + rest.length < s.n - 1; omega))
+        rw [a, h.ghostT]
+        simp only [s0, blank]
+        rw [List.getElem?_replicate]; simp; omega
+    · rw [List.getElem?_eq_none (by simp only [List.length_set]; rw [p5]; show s.n ≤ e; omega),
+          List.getElem?_eq_none (by rw [h.lenT]; omega)]
+  · -- locks
+    apply List.ext_getElem?
+    intro e
+    by_cases he : e < s.n
+    · rcases hidx e he with h0 | ⟨j, hj, hjl⟩ | hl
+      · subst h0
+        rw [List.getElem?_set_self (by rw [p6]; show 0 < s.n; omega), l0]
+      · subst hj
+        rw [List.getElem?_set_ne (by omega)]
+        have hq : rest[j]? = some rest[j] := List.getElem?_eq_getElem hjl
+        obtain ⟨_, _, a⟩ := p9 j _ hq
+        have hp : pns[j + 1]? = some rest[j] := by rw [hpns]; simp [hq]
+        obtain ⟨_, c, _, _, _⟩ := hslot (j + 1) _ hp
+        rw [show 0 + j + 1 = j + 1 from by omega] at a
+        rw [a, c]
+      · subst hl
+        rw [List.getElem?_set_ne (by omega)]
+        obtain ⟨_, _, a⟩ := p8 (s.n - 1) (Or.inr (by show 0 + rest.length < s.n - 1; omega))
+        rw [a, h.ghostL]
+        simp only [s0, blank]
+        rw [List.getElem?_replicate]; simp; omega
+    · rw [List.getElem?_eq_none (by simp only [List.length_set]; rw [p6]; show s.n ≤ e; omega),
+          List.getElem?_eq_none (by rw [h.lenL]; omega)]
+  · -- frac
+    intro q
+    rw [p3]
+    show s.frac.lookup q = (([] : AL) ++ rest.map (fun pn => (pn, fOf pn)) ++ [(pn0, fOf pn0)]).lookup q
+    have : ([] : AL) ++ rest.map (fun pn => (pn, fOf pn)) ++ [(pn0, fOf pn0)] =
+        (rest ++ [pn0]).map (fun pn => (pn, fOf pn)) := by simp
+    rw [this, lookup_map_keyed]
+    by_cases hq : q ∈ pns
+    · have hq' : q ∈ rest ++ [pn0] := by rw [hpns] at hq; exact (mem_rot q pn0 rest).mpr hq
+      rw [if_pos hq']
+      obtain ⟨e, he⟩ := List.mem_iff_getElem?.mp hq
+      obtain ⟨_, _, w, _, _, _, _, f, hf⟩ := h.slot e q he
+      simp only [fOf, persist, hf, Option.getD_some]
+    · have hq' : q ∉ rest ++ [pn0] := by rw [hpns] at hq; exact fun hc => hq ((mem_rot q pn0 rest).mp hc)
+      rw [if_neg hq']
+      exact lookup_none_of_not_key _ _ (fun hk => hq (h.fracKeys q hk))
+  · -- wts
+    intro q
+    rw [p4]
+    show s.wts.lookup q = (([] : AL) ++ rest.map (fun pn => (pn, wOf pn)) ++ [(pn0, wOf pn0)]).lookup q
+    have : ([] : AL) ++ rest.map (fun pn => (pn, wOf pn)) ++ [(pn0, wOf pn0)] =
+        (rest ++ [pn0]).map (fun pn => (pn, wOf pn)) := by simp
+    rw [this, lookup_map_keyed]
+    by_cases hq : q ∈ pns
+    · have hq' : q ∈ rest ++ [pn0] := by rw [hpns] at hq; exact (mem_rot q pn0 rest).mpr hq
+      rw [if_pos hq']
+      obtain ⟨e, he⟩ := List.mem_iff_getElem?.mp hq
+      obtain ⟨_, _, w, hw, _⟩ := h.slot e q he
+      simp only [wOf, hw, Option.getD_some]
+    · have hq' : q ∉ rest ++ [pn0] := by rw [hpns] at hq; exact fun hc => hq ((mem_rot q pn0 rest).mp hc)
+      rw [if_neg hq']
+      exact lookup_none_of_not_key _ _ (fun hk => hq (h.wtsKeys q hk))
+
 end Infretis.Repex
